@@ -4,6 +4,7 @@
 //!   check <client> <tick> => A <remaining> <reset_ns> ev=<client|-> tr=<tracked clients, sorted|->
 //!                          | L <retry_ns> ev=… tr=… | panic ev=… tr=…
 //!   cleanup <tick> <max_age_ticks> => tr=<tracked>
+//!   checkns <client> <nanoseconds> => (same answer as check; off the grid, judged against the bound only)
 use crate::util::{catch, Ctx};
 use std::net::{IpAddr, Ipv4Addr};
 use std::panic::AssertUnwindSafe;
@@ -52,6 +53,21 @@ impl Sys {
             Err(_) => "panic".to_string(),
         };
         format!("{} ev={} tr={}", head, ev, fmt_set(&after))
+    }
+    /// off the 1/512 s grid: clock in nanoseconds (f64 rounding may differ from exact arithmetic,
+    /// so only the property itself is judged on these answers, with a tolerance)
+    fn check_ns(&self, c: u64, ns: u64) -> String {
+        verif_clock::set(Some(self.base + Duration::from_nanos(ns)));
+        let before = self.tracked();
+        let r = catch(AssertUnwindSafe(|| self.rt.block_on(self.lim.check(ip(c)))));
+        let after = self.tracked();
+        let head = match r {
+            Ok(RateLimitResult::Allowed { remaining, reset_after }) => format!("A {} {}", remaining, reset_after.as_nanos()),
+            Ok(RateLimitResult::Limited { retry_after }) => format!("L {}", retry_after.as_nanos()),
+            Err(_) => "panic".to_string(),
+        };
+        let ev: Vec<String> = before.iter().filter(|x| !after.contains(x)).map(|x| x.to_string()).collect();
+        format!("{} ev={} tr={}", head, if ev.is_empty() { "-".to_string() } else { ev.join(",") }, fmt_set(&after))
     }
     fn cleanup(&self, tick: u64, age: u64) -> String {
         self.at(tick);
@@ -115,6 +131,35 @@ fn random_scenario(ctx: &mut Ctx, long: bool) {
     }
 }
 
+/// arbitrary nanosecond clock readings: judged against the bound only (no model comparison)
+fn offgrid_scenario(ctx: &mut Ctx) {
+    let rate = match ctx.rng.below(6) { 0 => 0, 1 => 1, 2 => 3, 3 => 7, _ => ctx.rng.range(0, 50) as u32 };
+    let burst = ctx.rng.range(0, 20) as u32;
+    let cap = ctx.rng.range(1, 4) as usize;
+    ctx.directive(&format!("new {} {} {} {}", 1, rate, burst, cap));
+    ctx.count("offgrid-scenario");
+    let sys = Sys::new(true, rate, burst, cap);
+    let nclients = cap as u64 + ctx.rng.below(2);
+    let focus = ctx.rng.below(nclients.max(1));
+    let mut ns = ctx.rng.below(1_000_000_000);
+    let per_token = if rate == 0 { 1_000_000_000 } else { 1_000_000_000 / rate as u64 };
+    for _ in 0..(20 + ctx.rng.below(60)) {
+        ns += match ctx.rng.below(8) {
+            0 | 1 => 0,
+            2 => per_token,
+            3 => per_token - 1,
+            4 => per_token + 1,
+            5 => ctx.rng.below(per_token.max(1)),
+            6 => ctx.rng.below(3_000_000_000),
+            _ => per_token / 3,
+        };
+        let c = if ctx.rng.chance(3, 4) { focus } else { ctx.rng.below(nclients.max(1)) };
+        let r = sys.check_ns(c, ns);
+        ctx.count(&format!("offgrid:{}", r.split(' ').next().unwrap_or("")));
+        ctx.case(&format!("checkns {} {}", c, ns), &r);
+    }
+}
+
 /// every sequence of `len` requests over `nclients` clients and the time steps `dts`
 fn exhaustive(ctx: &mut Ctx, rate: u32, burst: u32, cap: usize, nclients: u64, dts: &[u64], len: u32) {
     let alphabet = nclients * dts.len() as u64;
@@ -145,6 +190,8 @@ pub fn run(ctx: &mut Ctx, _name: &str) {
     }
     let n = if ctx.thorough { 4000 } else { 350 };
     for i in 0..n { random_scenario(ctx, i % 5 == 0); }
+    let n = if ctx.thorough { 4000 } else { 300 };
+    for _ in 0..n { offgrid_scenario(ctx); }
     // small scopes, exhaustively
     let (len, rates, bursts): (u32, &[u32], &[u32]) = if ctx.thorough { (4, &[0, 1, 2, 3], &[0, 1, 2]) } else { (3, &[0, 1, 3], &[0, 1, 2]) };
     for &rate in rates {
